@@ -61,6 +61,10 @@ fixes_txt = "\n".join(fixes) + "\n\n"
 
 seeded = subprocess.run(["python3", os.path.join(ROOT, "tools", "seeded_table.py")], capture_output=True, text=True).stdout
 seeded_txt = frag("05_seeded_intro.md") + seeded + "\n" + frag("05_seeded_notes.md")
+neutral = subprocess.run(["python3", os.path.join(ROOT, "tools", "neutral_table.py")], capture_output=True, text=True).stdout
+seeded_txt += frag("05b_neutral_intro.md") + neutral + frag("05b_neutral_notes.md")
+if os.path.exists(os.path.join(ROOT, "design", "06_smt_tie.md")):
+    seeded_txt += frag("06_smt_tie.md")
 
 section0 = "## 0. As built (authoritative wherever it differs from the plan in §1–§9)\n\n" + frag("00_head.md").split("\n", 2)[2] \
     + frag("02_table.md") + fixes_txt + frag("04_rest.md").split("### 0.6")[0] + seeded_txt + "### 0.6" + frag("04_rest.md").split("### 0.6")[1] \
